@@ -149,3 +149,49 @@ def fewest_links(edges: Dict[Tuple[int, int], Dict[str, float]], src: int, dst: 
                     nxt.append(v)
         frontier = nxt
     return seen.get(dst)
+
+
+# ----------------------------------------------------------------------------- positions (pure data -> EntityPosition)
+
+# a position spec is ["link", link_selector, where] with where in {"start","end","mid", float fraction}
+# or ["cell", lat, lon] (snapped with the network's own position_from_geoid)
+st_where = st.sampled_from(["start", "end", "mid", 0.1, 0.25, 0.5, 0.75, 0.9])
+
+
+def st_position(n_links_hint: int = 1000):
+    return st.one_of(
+        st.tuples(st.just("link"), st.integers(0, n_links_hint), st_where).map(list),
+        st.tuples(st.just("cell"), st.integers(0, 300), st.integers(0, 300)).map(lambda t: ["cell", round(LAT0 - 0.002 + t[1] * 0.00008, 6), round(LON0 - 0.002 + t[2] * 0.00008, 6)]),
+    )
+
+
+def sorted_links(rn):
+    ls = getattr(rn, "_hv_sorted_links", None)
+    if ls is None:
+        ls = sorted(rn.link_helper.links.values(), key=lambda l: l.link_id)
+        try:
+            rn._hv_sorted_links = ls
+        except Exception:
+            pass
+    return ls
+
+
+def resolve_position(rn, spec):
+    import h3
+    from nrel.hive.model.entity_position import EntityPosition
+
+    if spec[0] == "cell":
+        return rn.position_from_geoid(h3.geo_to_h3(spec[1], spec[2], rn.sim_h3_resolution))
+    links = sorted_links(rn)
+    l = links[spec[1] % len(links)]
+    line = h3.h3_line(l.start, l.end)
+    w = spec[2]
+    if w == "start":
+        g = line[0]
+    elif w == "end":
+        g = line[-1]
+    elif w == "mid":
+        g = line[len(line) // 2]
+    else:
+        g = line[min(len(line) - 1, int(len(line) * float(w)))]
+    return EntityPosition(l.link_id, g)
